@@ -324,3 +324,66 @@ def sharing_harness(kind):
         ex.check(rej, "the copy validates")
         return {"how": how}
     return harness
+
+
+# ---- containers that outlive their place in the owner ------------------------------------------------------------------------
+DETACH_HOWS = ["remove_trait (added trait)", "attribute re-assigned", "attribute deleted (reset to the default)",
+               "owner garbage-collected"]
+
+
+def detached_harness(kind):
+    """kind: list | dict | set.  A reference to the trait's container is kept while the container loses its place in the owner
+    (the instance trait is removed / the attribute gets another container / is reset / the owner goes away).  The kept container
+    still refines the built-in: a valid operation succeeds, raises nothing and tells the owner's items listeners nothing; an
+    operation the built-in refuses raises the same exception class and changes nothing."""
+    import gc
+    from traits.api import Int
+
+    def harness(ex):
+        mk = {"list": lambda: List(Int), "dict": lambda: Dict(Int, Int), "set": lambda: Set(Int)}[kind]
+        init = {"list": [1, 2], "dict": {1: 1, 2: 2}, "set": {1, 2}}[kind]
+        how = DETACH_HOWS[ex.choice("how", len(DETACH_HOWS))]
+        declared = how in ("attribute re-assigned", "attribute deleted (reset to the default)", "owner garbage-collected") and ex.flag("declared")
+        log = []
+        if declared:
+            o = type("Owner", (HasTraits,), {"c": mk()})()
+        else:
+            o = type("Owner", (HasTraits,), {})()
+            o.add_trait("c", mk())
+        o.c = init
+        o.on_trait_change(lambda obj, name, old, new: log.append(name), "c_items")
+        o.observe(lambda e: log.append("observe"), "c:items")
+        kept = o.c
+        if how.startswith("remove_trait"):
+            o.remove_trait("c")
+        elif how == "attribute re-assigned":
+            o.c = type(init)(init)
+        elif how.startswith("attribute deleted"):
+            del o.c
+        elif how == "owner garbage-collected":
+            del o
+            gc.collect()
+        del log[:]
+        ref = type(init)(init)
+        ops = {"list": [lambda c: c.append(7), lambda c: c.__setitem__(0, 8), lambda c: c.pop(), lambda c: c.pop(10), lambda c: c.remove(99)],
+               "dict": [lambda c: c.__setitem__(7, 7), lambda c: c.update({1: 5}), lambda c: c.pop(1), lambda c: c.pop(99), lambda c: c.__delitem__(99)],
+               "set": [lambda c: c.add(7), lambda c: c.update({8, 9}), lambda c: c.discard(1), lambda c: c.remove(99), lambda c: c.pop()]}[kind]
+        op = ops[ex.choice("op", len(ops))]
+        exc_t = exc_r = None
+        before = type(init)(kept)
+        try:
+            op(kept)
+        except Exception as e:
+            exc_t = type(e).__name__
+        try:
+            op(ref)
+        except Exception as e:
+            exc_r = type(e).__name__
+        ex.check(exc_t == exc_r, "a container that lost its place in the owner still raises exactly where the built-in raises")
+        if exc_t is not None:
+            ex.check(type(init)(kept) == before, "failing operation changes nothing")
+        elif kind != "set" or exc_r is None:
+            ex.check(type(init)(kept) == ref or kind == "set" and len(kept) == len(ref), "contents equal the built-in's after the same operation")
+        ex.check([n_ for n_ in log if n_ != "observe"] == [], "the owner's items listeners hear nothing from a container the attribute no longer holds")
+        return {"how": how}
+    return harness
